@@ -8,6 +8,7 @@ import (
 	"io"
 	"reflect"
 	"sort"
+	"strings"
 	"time"
 
 	"github.com/csgura/fp"
@@ -186,11 +187,26 @@ func c15Faults(r *sim.Run, rec, other []byte) (out [][]byte, names []string) {
 	n := r.Range(2, 8, "nFaults")
 	for i := 0; i < n; i++ {
 		b := append([]byte(nil), rec...)
-		kind := r.Choose(10, "faultKind")
-		if len(b) == 0 && kind != 8 {
+		kind := r.Choose(12, "faultKind")
+		if len(b) == 0 && kind != 8 && kind != 10 && kind != 11 {
 			kind = 7
 		}
 		switch kind {
+		case 10:
+			// the store hands back a blanked block: nothing but JSON whitespace, of a seeded length
+			n := 1 + r.Choose(6, "blankLen")
+			b = []byte(strings.Repeat([]string{" ", "\n", "\t", "\r"}[r.Choose(4, "blankCh")], n))
+			names = append(names, fmt.Sprintf("record replaced by %d whitespace byte(s)", n))
+			r.Fault("blank-block")
+		case 11:
+			// arbitrary bytes
+			n := 1 + r.Choose(12, "junkLen")
+			b = make([]byte, n)
+			for k := range b {
+				b[k] = byte(r.Choose(256, "junk"))
+			}
+			names = append(names, fmt.Sprintf("record replaced by %d arbitrary byte(s) %q", n, b))
+			r.Fault("arbitrary-bytes")
 		case 9:
 			// schema drift: an intact, well-formed record in which one leaf has a value of another JSON type
 			// (what a writer with a different schema version stores); other fields keep their good values
